@@ -142,3 +142,73 @@ def restricted_growth(length, maxsyms):
 def shard_prefixes(alphabet, depth):
     """Prefixes used to split a string enumeration into independent shards."""
     return list(itertools.product(alphabet, repeat=depth))
+
+
+# --------------------------------------------------------------------------------------------------
+# "second call" wrapper: results of a pure function must not depend on earlier calls
+
+_SCRAMBLE = '<changed by the caller>'
+
+
+def second_call(fn, copy_args=False):
+    """Wrap a function under test so that every evaluation is the *second* call with equal arguments: the first
+    result is consumed (iterators) and mutated in place (lists, dicts, sets, bytearrays) before the function is called
+    again, and the second result is what the oracle sees.  Memoised one-shot iterators, cached mutable results and
+    other state kept between calls then show up as ordinary oracle failures.  Arguments that are one-shot iterators
+    are passed through unchanged and only used once (no second call)."""
+    import copy
+    import types
+
+    def wrapper(*args, **kwargs):
+        one_shot = any(isinstance(a, (types.GeneratorType, map, filter, zip)) or
+                       (hasattr(a, '__next__') and not hasattr(a, '__len__'))
+                       for a in list(args) + list(kwargs.values()))
+        if one_shot:
+            return fn(*args, **kwargs)
+        args2, kwargs2 = args, kwargs
+        if copy_args:
+            try:
+                args2, kwargs2 = copy.deepcopy((args, kwargs))
+            except Exception:
+                return fn(*args, **kwargs)
+        try:
+            first = fn(*args, **kwargs)
+        except Exception:
+            return fn(*args2, **kwargs2)
+        try:
+            if hasattr(first, '__next__'):
+                for _ in first:
+                    pass
+            elif isinstance(first, list):
+                first.append(_SCRAMBLE)
+                first.reverse()
+            elif isinstance(first, dict):
+                first[_SCRAMBLE] = _SCRAMBLE
+            elif isinstance(first, (set, bytearray)):
+                first.clear()
+        except Exception:
+            pass
+        return fn(*args2, **kwargs2)
+    wrapper.__name__ = getattr(fn, '__name__', 'fn')
+    wrapper.__wrapped_by_second_call__ = fn
+    return wrapper
+
+
+class SecondCallModule:
+    """Proxy of a module whose public functions are wrapped by second_call (classes and constants pass through)."""
+
+    def __init__(self, mod, names=None):
+        import types
+        self._mod = mod
+        self._cache = {}
+        self._names = names
+        self._ft = types.FunctionType
+
+    def __getattr__(self, name):
+        v = getattr(self._mod, name)
+        if isinstance(v, self._ft) and (self._names is None or name in self._names):
+            w = self._cache.get(name)
+            if w is None or w.__wrapped_by_second_call__ is not v:
+                w = self._cache[name] = second_call(v)
+            return w
+        return v
